@@ -353,6 +353,27 @@ func init() {
 				}
 			}
 		}
+		// a method call whose receiver is reached through FIELDS of what a call or an index returned
+		// (X.M().Y.N(), x[i].Y.N()): Go calls N on Y.  (The parser's assignCallee overwrites the receiver
+		// of the last call with the call / index result: known finding c11-middle-segment-dropped.)
+		{
+			tree := c11mktree("t", 2)
+			extra := map[string]interface{}{"t": tree, "kids": []*c11tree{tree.L, tree.R}}
+			for _, t := range [][2]string{{"<%= t.Self().L.Val() %>", "Val:t.L"}, {"<%= t.L.Self().R.Val() %>", "Val:t.L.R"}, {"<% let xs = kids %><%= xs[0].L.Val() %>", "Val:t.L.L"},
+				{"<% let e = t.R %><%= e.Self().L.Pick(\"p\") %>", "t.R.L/p"}, {"<%= kids[1].R.Val() %>", "Val:t.R.R"}, {"<%= t.Self().V.Val() %>", "Leaf:t.V"}} {
+				o := runRenderExtra(RCase{Tmpl: t[0]}, extra)
+				e.rep.Evaluations++
+				e.Count("fields-after-call-or-index")
+				e.Distinct(t[0])
+				rp := map[string]interface{}{"tmpl": t[0], "observed": o}
+				switch {
+				case o.Class == "PANIC":
+					e.Violate("eval-panic@"+siteOf(o.Msg), fmt.Sprintf("Render panicked on %q: %s", t[0], o.Msg), rp)
+				case o.Class == "OK" && o.Out != t[1]:
+					e.Violate("c11-middle-segment-dropped", fmt.Sprintf("%s: Go yields %q, the template rendered %q", t[0], t[1], o.Out), rp)
+				}
+			}
+		}
 		// a method promoted through an embedded pointer that is nil, a value method reached through a nil
 		// pointer: the navigation cannot be completed - an error or empty output, never a panic
 		{
@@ -422,6 +443,7 @@ type c11leaf struct{ Name string }
 func (t c11tree) Val() string           { return "Val:" + t.Name }
 func (t *c11tree) Pick(s string) string { return t.Name + "/" + s }
 func (l c11leaf) Val() string           { return "Leaf:" + l.Name }
+func (t *c11tree) Self() *c11tree       { return t }
 
 // a value method promoted through an embedded pointer
 type c11inner struct{ v int }
